@@ -406,6 +406,8 @@ func (in *Interp) runPath(fn *ssa.Function, prefix []int) (kind, msg string) {
 	in.preemptLocks = false
 	in.schedules = 1
 	in.specDepth = 0
+	in.raceReset()
+	in.tickSeq = 0
 	in.pathNotes = nil
 	in.lastClock = nil
 	in.clockTicks = 0
@@ -459,6 +461,7 @@ func (in *Interp) runPath(fn *ssa.Function, prefix []int) (kind, msg string) {
 		}
 	}()
 	main := &Goroutine{id: 0, isMain: true}
+	main.vc.set(0, 1)
 	in.gs = append(in.gs, main)
 	in.cur = main
 	fr := in.newFrame(fn, nil, nil)
